@@ -25,10 +25,13 @@ VARIABLES l,          \* next line of Trace
           pendErr,    \* an action of the last executed rule failed: "" or the rule name
           lastExec, done,
           viol,       \* flags raised: <<code, trace id, line>>
-          marks       \* antecedents met: <<property, trace id>>  (non-triviality evidence)
+          marks,      \* antecedents met: <<property, trace id>>  (non-triviality evidence)
+          hOn, hVars, \* C13: the program holds one counted method atom; the variables occurring in it
+          hUsed, hLimit \* real evaluations of it since the last invalidation / how many are admissible
 
 vars == <<l, tid, mode, rules, maxc, flag, facts, retracted, complete, cancelled, cyc, evald, cands, execd,
-          prevEvald, prevCands, pendErr, lastExec, done, viol, marks>>
+          prevEvald, prevCands, pendErr, lastExec, done, viol, marks, hOn, hVars, hUsed, hLimit>>
+hvars == <<hOn, hVars, hUsed, hLimit>>
 
 T == Trace[l]
 Is(e) == l <= Len(Trace) /\ T.ev = e /\ l' = l + 1
@@ -49,10 +52,45 @@ FirstBad(cs, i) == IF i > Len(cs) THEN "" ELSE IF cs[i][1] THEN FirstBad(cs, i +
 Checks(cs) == LET b == FirstBad(cs, 1) IN IF b = "" THEN UNCHANGED viol ELSE Flag(b)
 Mark(S) == marks' = marks \cup {<<p, tid>> : p \in S}
 
+\* ---- C13: static text of access paths and the variables occurring in an expression ----
+RECURSIVE PText(_, _, _), EText(_), VarsIn(_), PathVars(_, _)
+EText(e) == CASE e.k = "c" -> (IF e.t = "i" THEN ToString(e.v) ELSE IF e.t = "s" THEN "'" \o e.v \o "'" ELSE "?")
+              [] e.k = "p" -> PText(e.path, 1, "")
+              [] OTHER -> "?"
+PText(steps, i, acc) ==
+  IF i > Len(steps) THEN acc
+  ELSE LET s == steps[i] IN
+       IF "n" \in DOMAIN s THEN PText(steps, i + 1, IF i = 1 THEN s.n ELSE acc \o "." \o s.n)
+       ELSE PText(steps, i + 1, acc \o "[" \o EText(s.x) \o "]")
+\* every path, every prefix of it, and the paths inside its selectors
+PathVars(steps, i) ==
+  IF i > Len(steps) THEN {}
+  ELSE {PText(SubSeq(steps, 1, i), 1, "")}
+       \cup (IF "x" \in DOMAIN steps[i] THEN VarsIn(steps[i].x) ELSE {})
+       \cup PathVars(steps, i + 1)
+VarsIn(e) == CASE e.k = "c"    -> {}
+               [] e.k = "p"    -> PathVars(e.path, 1)
+               [] e.k = "not"  -> VarsIn(e.e)
+               [] e.k = "bin"  -> VarsIn(e.l) \cup VarsIn(e.r)
+               [] e.k = "call" -> PathVars(e.recv, 1) \cup UNION {VarsIn(e.args[j]) : j \in DOMAIN e.args}
+               [] OTHER        -> {}
+\* an invalidation event concerning the counted atom: an assignment to a variable occurring in its receiver
+\* or arguments, or a Forget/Changed naming one of them
+Invalidates(a) == \/ a.k = "asg" /\ PText(a.path, 1, "") \in hVars
+                  \/ a.k = "forget" /\ a.name \in hVars
+\* number of invalidation events among the actions of a list that were really executed
+RECURSIVE Invalidations(_, _, _)
+Invalidations(acts, i, s) ==
+  IF i > Len(acts) THEN 0
+  ELSE LET s2 == Step(acts[i], s) IN
+       IF s2.err THEN 0
+       ELSE (IF Invalidates(acts[i]) THEN 1 ELSE 0) + Invalidations(acts, i + 1, s2)
+
 Init == /\ l = 1 /\ tid = -1 /\ mode = "none" /\ rules = <<>> /\ maxc = 0 /\ flag = FALSE
         /\ facts = <<>> /\ retracted = {} /\ complete = FALSE /\ cancelled = FALSE /\ cyc = 0
         /\ evald = {} /\ cands = {} /\ execd = FALSE /\ prevEvald = {} /\ prevCands = {}
         /\ pendErr = "" /\ lastExec = "" /\ done = TRUE /\ viol = {} /\ marks = {}
+        /\ hOn = FALSE /\ hVars = {} /\ hUsed = 0 /\ hLimit = 1
 
 Begin == /\ Is("begin")
          /\ tid' = T.id /\ mode' = T.mode /\ rules' = T.rules /\ maxc' = T.max /\ flag' = T.flag
@@ -60,6 +98,7 @@ Begin == /\ Is("begin")
          /\ evald' = {} /\ cands' = {} /\ execd' = FALSE /\ prevEvald' = {} /\ prevCands' = {}
          /\ pendErr' = "" /\ lastExec' = "" /\ done' = FALSE
          /\ marks' = IF T.call > 0 THEN marks \cup {<<"C08", T.id>>} ELSE marks
+         /\ hOn' = (T.counted.k = "call") /\ hVars' = VarsIn(T.counted) /\ hUsed' = 0 /\ hLimit' = 1
          /\ UNCHANGED viol
 
 \* a knowledge base that could not be built / instantiated / stored / loaded (C09, C12, C17 territory)
@@ -67,7 +106,7 @@ SetupFailed == /\ Is("setup-failed")
                /\ PrintT(<<"FLAG", "SETUP-" \o T.variant, T.id, l>>)
                /\ viol' = viol \cup {<<"SETUP-" \o T.variant, T.id, l>>}
                /\ UNCHANGED <<tid, mode, rules, maxc, flag, facts, retracted, complete, cancelled, cyc, evald,
-                              cands, execd, prevEvald, prevCands, pendErr, lastExec, done, marks>>
+                              cands, execd, prevEvald, prevCands, pendErr, lastExec, done, marks, hvars>>
 
 CycleEv ==
   /\ Is("cycle")
@@ -80,7 +119,8 @@ CycleEv ==
   /\ facts' = T.facts        \* resynchronise
   /\ prevEvald' = evald /\ prevCands' = cands
   /\ evald' = {} /\ cands' = {} /\ execd' = FALSE
-  /\ UNCHANGED <<tid, mode, rules, maxc, flag, retracted, complete, cancelled, cyc, pendErr, lastExec, done, marks>>
+  /\ marks' = IF hOn /\ hUsed >= 1 /\ cyc >= 1 THEN marks \cup {<<"C13", tid>>} ELSE marks
+  /\ UNCHANGED <<tid, mode, rules, maxc, flag, retracted, complete, cancelled, cyc, pendErr, lastExec, done, hvars>>
 
 EvalEv ==
   /\ Is("eval")
@@ -101,7 +141,7 @@ EvalEv ==
              \cup (IF r \in (prevEvald \ prevCands) /\ T.can THEN {"C02"} ELSE {})
              \cup (IF r \in Names /\ Broken(r) THEN {"C14"} ELSE {}))
   /\ UNCHANGED <<tid, mode, rules, maxc, flag, facts, retracted, complete, cancelled, cyc, execd,
-                 prevEvald, prevCands, pendErr, lastExec, done>>
+                 prevEvald, prevCands, pendErr, lastExec, done, hvars>>
 
 ExecEv ==
   /\ Is("exec")
@@ -133,17 +173,27 @@ ExecEv ==
              \cup (IF s.err THEN {"C14a"} ELSE {})
              \cup (IF cancelled THEN {"C15x"} ELSE {}))
   /\ cyc' = cyc + 1 /\ execd' = TRUE /\ lastExec' = T.r
-  /\ UNCHANGED <<tid, mode, rules, maxc, flag, cancelled, evald, cands, prevEvald, prevCands, done>>
+  /\ LET k == IF hOn /\ T.r \in Names /\ ~cancelled
+               THEN Invalidations(rules[T.r].a, 1, [f |-> facts, ret |-> retracted, comp |-> complete, err |-> FALSE])
+               ELSE 0
+     IN IF k > 0 THEN hUsed' = 0 /\ hLimit' = k + (IF hUsed = 0 THEN 1 ELSE 0)
+                 ELSE UNCHANGED <<hUsed, hLimit>>
+  /\ UNCHANGED <<tid, mode, rules, maxc, flag, cancelled, evald, cands, prevEvald, prevCands, done, hOn, hVars>>
 
+\* a real invocation of an instrumented fact method (an atom served from the memo produces no event)
 CallEv == /\ Is("call")
+          /\ IF hOn /\ T.m = "Heavy"
+             THEN /\ hUsed' = hUsed + 1
+                  /\ Check(hUsed + 1 <= hLimit, "C13-evaluated-again-without-invalidation")
+             ELSE UNCHANGED <<hUsed, viol>>
           /\ UNCHANGED <<tid, mode, rules, maxc, flag, facts, retracted, complete, cancelled, cyc, evald, cands,
-                         execd, prevEvald, prevCands, pendErr, lastExec, done, viol, marks>>
+                         execd, prevEvald, prevCands, pendErr, lastExec, done, marks, hOn, hVars, hLimit>>
 
 CancelEv == /\ Is("cancel")
             /\ cancelled' = TRUE
             /\ Mark({"C15"})
             /\ UNCHANGED <<tid, mode, rules, maxc, flag, facts, retracted, complete, cyc, evald, cands, execd,
-                           prevEvald, prevCands, pendErr, lastExec, done, viol>>
+                           prevEvald, prevCands, pendErr, lastExec, done, viol, hvars>>
 
 \* ---- return of Execute ----
 Quiescent == evald = Active /\ ~\E r \in Active : Truth(r)
@@ -201,7 +251,7 @@ RetEv ==
                    /\ \E r \in Live : ~Truth(r) THEN {"C11"} ELSE {})
           \cup (IF mode = "fetch" /\ Len(T.matched) >= 2 THEN {"C11o"} ELSE {}))
   /\ UNCHANGED <<tid, mode, rules, maxc, flag, facts, retracted, complete, cancelled, cyc, evald, cands, execd,
-                 prevEvald, prevCands, pendErr, lastExec>>
+                 prevEvald, prevCands, pendErr, lastExec, hvars>>
 
 Next == Begin \/ SetupFailed \/ CycleEv \/ EvalEv \/ ExecEv \/ CallEv \/ CancelEv \/ RetEv
 Spec == Init /\ [][Next]_vars
